@@ -93,7 +93,8 @@ func ReadUint8(r Reader, c *uint8) (n int64, err error) {
 
 // ReadUint8Slice reads a slice of byte from r and stores the result into c.
 func ReadUint8Slice(r Reader, c []uint8) (n int64, err error) {
-	nint, err := r.Read(c)
+	// A single Read may return fewer bytes than len(c) without error.
+	nint, err := io.ReadFull(r, c)
 	return int64(nint), err
 }
 
